@@ -525,6 +525,16 @@ class Model(object):
         return Tok("str", '"' + s + '"')
 
     def subst(self, m, args, hs, name):
+        depth = 0
+        for t in m.body:
+            if t.s == "(":
+                depth += 1
+            elif t.s == ")":
+                depth -= 1
+                if depth < 0:
+                    break
+        if depth != 0:
+            self.f.add("body-unbalanced-parens")
         if m.params is None:
             res = [t.cp() for t in m.body]
             self.f.add("obj" if res else "obj-empty")
@@ -549,6 +559,10 @@ class Model(object):
                     self.f.add("lit-has-macro-name")
                 if "#" in t.s:
                     self.f.add("lit-has-hash")
+                if "(" in t.s or ")" in t.s:
+                    self.f.add("lit-has-paren")
+                if "," in t.s:
+                    self.f.add("lit-has-comma")
                 if re.search(r"[ \t]", t.s):
                     self.f.add("lit-has-space")
 
@@ -762,6 +776,9 @@ class Gen(object):
     def strlit(self, scope):
         r = self.r
         parts = []
+        if not self.fl.get("lit_names"):
+            # plain literal: one word or number, no white space, no punctuation
+            return '"' + r.choice(["", "s", "abc", "w0", "42", "%d", "x1"]) + '"'
         for _ in range(r.randint(0, 3)):
             x = r.random()
             if self.fl.get("lit_names") and x < 0.35 and scope.get("params"):
@@ -783,6 +800,8 @@ class Gen(object):
 
     def chrlit(self, scope):
         r = self.r
+        if not self.fl.get("lit_names") and not self.fl.get("paren_commas"):
+            return r.choice(["'a'", "'0'", "'\\n'", "'\\\\'"])
         opts = ["'a'", "','", "'('", "')'", "'\"'", "'\\''", "'\\\\'", "'0'", "'\\n'", "' '"]
         if self.fl.get("lit_names") and scope.get("params"):
             opts += ["'%s'" % p for p in scope["params"] if len(p) == 1] * 3
@@ -1035,7 +1054,7 @@ class Gen(object):
             head, b = texts[i]
             units.append({"k": "D", "t": head + "=" + b})
         live = set(cmd)
-        nuse_total = r.randint(3, 8)
+        nuse_total = r.randint(2, 6)
         pending_defs = [i for i in range(ndefs) if i not in cmd]
         state = {"pushed": []}
 
@@ -1123,8 +1142,9 @@ class Gen(object):
         return [r.choice(BIN)] + [m.name] + call[1:] if r.random() < 0.5 else [r.choice(BIN)] + call
 
 
-PROB = {"objlike": 0.6, "fnlike": 0.6, "self_ref": 0.15, "mutual_ref": 0.15, "lit_names": 0.25, "cmdline": 0.25,
-        "push_pop": 0.25, "undef_redef": 0.3}
+PROB = {"objlike": 0.6, "fnlike": 0.6, "self_ref": 0.15, "mutual_ref": 0.15, "lit_names": 0.2, "cmdline": 0.25,
+        "push_pop": 0.25, "undef_redef": 0.3, "va_opt": 0.25, "variadic": 0.35, "stringify": 0.3, "paste": 0.3,
+        "empty_args": 0.3, "paren_commas": 0.3, "macro_as_arg": 0.3, "nested": 0.4, "multiline": 0.3}
 
 
 def make_flags(rng, forced=None):
